@@ -228,7 +228,14 @@ func genSeqTxnCase(r *kit.Rand) KVCase {
 			switch r.Pick(20, 2, 3, 2) {
 			case 1: // oversized entry: the commit must fail as a whole
 				p := put()
-				p.Len = 33000
+				if r.Bool(0.5) {
+					p.Len = kit.PickOf(r, 33000, 40000, 70000)
+				} else {
+					// around the log's record size, on either side of wherever
+					// the limit is applied (commit may succeed or fail; either
+					// way as a whole)
+					p.Len = 32768 - len(p.Key) - 30 + r.Intn(48)
+				}
 				t.Sub = append(t.Sub, p)
 				t.Commit = true
 			case 2:
